@@ -36,7 +36,7 @@ func c18r1(c *Ctx) {
 		return
 	}
 	regs := c.P.Registrations()
-	e := c.P.Env(fac)
+
 	spec := map[string]RegSpec{}
 	for _, s := range loadRegSpec() {
 		spec[s.Name] = s
@@ -96,15 +96,18 @@ func c18r1(c *Ctx) {
 				Detail: fmt.Sprintf("%s is bound to %s%v, the protocol binds it to %s%v", r.Key, ctor, r.Flags, s.Ctor, s.Flags), Expected: fmt.Sprintf("%s%v", s.Ctor, s.Flags)})
 		}
 		// (c) on the spine: the Add's success edge cuts every success return; and the constructor's error is checked
-		add := r.Add
-		pred := func(f Fact) bool { return !f.Lin && f.Pos && f.Call == add && strings.HasPrefix(f.Atom, "ok:") }
+		// (through helpers of the factory: each call of the chain must do so in its own function)
 		okAll := true
-		for _, ret := range returnsOf(fac) {
-			if !isSuccessReturn(ret) {
-				continue
-			}
-			if _, ok := e.CutAt(ret, pred, nil); !ok {
-				okAll = false
+		for _, l := range r.Chain {
+			call := l.call
+			pred := func(f Fact) bool { return !f.Lin && f.Pos && f.Call == call && strings.HasPrefix(f.Atom, "ok:") }
+			for _, ret := range returnsOf(l.env.Fn) {
+				if !isSuccessReturn(ret) {
+					continue
+				}
+				if _, ok := l.env.CutAt(ret, pred, nil); !ok {
+					okAll = false
+				}
 			}
 		}
 		if okAll {
